@@ -244,6 +244,13 @@ func VerifH_C10_ClientMultiGet() {
 			return nil
 		}
 	}
+	// optionally the first href is requested once more at the end: every
+	// requested href is answered, in request order
+	repeated := false
+	if failCode == 0 && n >= 2 && vrt.Choose("first-href-again", 2) == 1 {
+		repeated = true
+		paths = append(paths, paths[0])
+	}
 	c, _ := newLoopClient(be)
 	got, err := c.MultiGetAddressBook(context.Background(), "/dav/u/contacts/ab/", &AddressBookMultiGet{Paths: paths, DataRequest: AddressDataRequest{AllProp: true}})
 	if failCode != 0 {
@@ -258,12 +265,16 @@ func VerifH_C10_ClientMultiGet() {
 	if err != nil {
 		return
 	}
-	vrt.Assert(len(got) == n, "MultiGetAddressBook: one object per requested path")
-	if len(got) != n {
+	vrt.Assert(len(got) == len(paths), "MultiGetAddressBook: one object per requested path")
+	if len(got) != len(paths) {
 		return
 	}
 	for i := range got {
-		objEqC10(&got[i], &be.objects[i], "MultiGetAddressBook")
+		want := i
+		if repeated && i == n {
+			want = 0
+		}
+		objEqC10(&got[i], &be.objects[want], "MultiGetAddressBook")
 	}
 	vrt.Reach("client-multiget")
 }
@@ -377,7 +388,7 @@ func VerifH_C10_Sync() {
 			raw, _ := internal.EncodeRawXMLElement(&internal.GetETag{ETag: internal.ETag("tag" + string(rune('a'+i)))})
 			resp.PropStats = []internal.PropStat{{Status: internal.Status{Code: 200}, Prop: internal.Prop{Raw: []internal.RawXMLValue{*raw}}}}
 		case 1: // failed member with an arbitrary status
-			codes[i] = vrt.Int("response-status")
+			codes[i] = vrt.IntRange("response-status", 100, 999)
 			vrt.Assume(codes[i] < 200 || codes[i] > 299)
 			resp.Status = &internal.Status{Code: codes[i]}
 			if vrt.Choose("second-href", 2) == 1 {
